@@ -852,10 +852,10 @@ def edit_jobs(catname, n, nmut, seed, vlevel=1, kind="edit", complete=False):
                     or (f[0] == "E" and pos <= 7) or (f[0] in "POU")
                 if not refused:
                     cur[cur.index(t)] = new
-            elif c < 0.72 and f[0] in "LCEGF":
+            elif c < 0.72 and (f[0] in "LCEGF" or (f[0] in "SOU" and rnd.random() < 0.5)):
                 # the same object is disconnected, edited while outside the Gfa (every field may be
                 # edited then) and added again
-                npos = {"L": 5, "C": 6, "E": 8, "G": 5, "F": 7}[f[0]]
+                npos = {"L": 5, "C": 6, "E": 8, "G": 5, "F": 7, "S": 2 if ver == "gfa1" else 3, "P": 3, "O": 2, "U": 2}[f[0]]
                 new = list(f)
                 if f[0] == "E" and rnd.random() < 0.5:
                     # the two intervals exchange their kinds (suffix <-> prefix): sid1 and sid2 swap the
@@ -864,8 +864,11 @@ def edit_jobs(catname, n, nmut, seed, vlevel=1, kind="edit", complete=False):
                     pre = lambda L: ["0", "%d%s" % (min(2, L), "$" if min(2, L) == L else "")]
                     suf = lambda L: [str(max(0, L - 2)), "%d$" % L]
                     new[4:8] = (pre(L1) + suf(L2)) if f[5].endswith("$") else (suf(L1) + pre(L2))
-                for _k in range(rnd.randint(0 if new != f else 1, 2)):
-                    pos = rnd.randint(2 if f[0] in "EG" else 1, npos)
+                swapped = new != f
+                for _k in range(rnd.randint(0 if swapped else 1, 2)):
+                    pos = 8 if swapped else rnd.randint(2 if f[0] in "EGSPOU" else 1, npos)
+                    if f[0] == "E" and 4 <= pos <= 7:
+                        pos = 8      # a single position edited alone could make begin > end: not a line any more
                     vals = EDIT_VALUES.get((f[0], ver, pos)) or EDIT_VALUES.get((f[0], None, pos))
                     if vals:
                         new[pos] = rnd.choice(vals)
